@@ -125,6 +125,30 @@ class ApiSession:
                 got.add(tags[f.send_time])
         return got
 
+    def reconnect(self, lost):
+        """clean: disconnect() then connect(); lost: the connection dies under the client (it learns through
+        ConnectionLost on the next read), then connect() on the same object"""
+        import socket as _s
+        from pyrtma.exceptions import ConnectionLost, NotConnectedError
+        if lost:
+            try:
+                self.c._sock.shutdown(_s.SHUT_RDWR)
+            except OSError:
+                pass
+            for _ in range(50):
+                try:
+                    self.c.read_message(timeout=0.05)
+                except (ConnectionLost, NotConnectedError):
+                    break
+                except Exception:
+                    pass
+        else:
+            self.c.disconnect()
+        self.c.connect(f"127.0.0.1:{self.rig.addr[1]}")
+        self.rd = RawReader(self.c.sock, self.rig.timecode)
+        self.sent0 = self.c.msg_count
+        self.ctl_expected = 0
+
     def close(self):
         try:
             self.c._sock.close()
